@@ -266,3 +266,124 @@ func (x *exec) assertSameIntrinsic(a, b value, label string) {
 	}
 	x.assertSame(ia.t, ia.v, ib.v, root, label, 0)
 }
+
+// ---- zzvAssertDisjoint(a, b, label): one obligation per field path of a whose target memory is
+// also reachable from b ("<label>: <Type>.<Field> is not shared").
+
+func collectMaps(v value, out map[*omap]bool, seen map[*value]bool) {
+	switch v := v.(type) {
+	case *value:
+		if v == nil || seen[v] {
+			return
+		}
+		seen[v] = true
+		collectMaps(*v, out, seen)
+	case structure:
+		for i := range v {
+			collectMaps(v[i], out, seen)
+		}
+	case array:
+		for i := range v {
+			collectMaps(v[i], out, seen)
+		}
+	case []value:
+		for i := range v {
+			collectMaps(v[i], out, seen)
+		}
+	case iface:
+		collectMaps(v.v, out, seen)
+	case *omap:
+		if v == nil || out[v] {
+			return
+		}
+		out[v] = true
+		for i := range v.vals {
+			collectMaps(v.vals[i], out, seen)
+		}
+	}
+}
+
+func zeroSized(t types.Type) bool {
+	st, ok := t.Underlying().(*types.Struct)
+	return ok && st.NumFields() == 0
+}
+
+func (x *exec) assertDisjoint(t types.Type, v value, cellsB map[*value]bool, mapsB map[*omap]bool, seen map[*value]bool, path, label string, depth int) {
+	if depth > 80 {
+		return
+	}
+	tb := x.tb
+	clause := label + ": " + path + " is not shared"
+	switch ut := t.Underlying().(type) {
+	case *types.Pointer:
+		p, _ := v.(*value)
+		if p == nil || seen[p] {
+			return
+		}
+		seen[p] = true
+		if !zeroSized(ut.Elem()) && cellsB[p] {
+			x.obligation(tb.BoolC(false), clause, false)
+			return
+		}
+		x.assertDisjoint(ut.Elem(), *p, cellsB, mapsB, seen, path, label, depth+1)
+	case *types.Struct:
+		sv, ok := v.(structure)
+		if !ok {
+			return
+		}
+		owner := shortKind(t)
+		if owner == "" || strings.HasPrefix(owner, "struct") {
+			owner = path
+		}
+		for i := 0; i < ut.NumFields(); i++ {
+			x.assertDisjoint(ut.Field(i).Type(), sv[i], cellsB, mapsB, seen, owner+"."+ut.Field(i).Name(), label, depth+1)
+		}
+	case *types.Slice:
+		sl, ok := v.([]value)
+		if !ok || cap(sl) == 0 {
+			return
+		}
+		full := sl[:cap(sl)]
+		if cellsB[&full[0]] {
+			x.obligation(tb.BoolC(false), clause, false)
+			return
+		}
+		for i := range sl {
+			x.assertDisjoint(ut.Elem(), sl[i], cellsB, mapsB, seen, path+"[]", label, depth+1)
+		}
+	case *types.Interface:
+		itf, _ := v.(iface)
+		if itf.t == nil {
+			return
+		}
+		x.assertDisjoint(itf.t, itf.v, cellsB, mapsB, seen, path+"("+shortKind(itf.t)+")", label, depth+1)
+	case *types.Map:
+		m, _ := v.(*omap)
+		if m == nil {
+			return
+		}
+		if mapsB[m] {
+			x.obligation(tb.BoolC(false), clause, false)
+			return
+		}
+		for i := range m.vals {
+			x.assertDisjoint(ut.Elem(), m.vals[i], cellsB, mapsB, seen, path+"[]", label, depth+1)
+		}
+	}
+}
+
+func (x *exec) assertDisjointIntrinsic(a, b value, label string) {
+	ia, ok := a.(iface)
+	if !ok || ia.t == nil {
+		return
+	}
+	ib, _ := b.(iface)
+	cellsB := reachableCells(ib.v)
+	mapsB := map[*omap]bool{}
+	collectMaps(ib.v, mapsB, map[*value]bool{})
+	root := shortKind(ia.t)
+	if root == "" || strings.HasPrefix(root, "[") {
+		root = "elements"
+	}
+	x.assertDisjoint(ia.t, ia.v, cellsB, mapsB, map[*value]bool{}, root, label, 0)
+}
